@@ -165,18 +165,20 @@ impl DnsCache {
 
     /// Returns the list of instances that has `host` as its hostname.
     pub(crate) fn get_instances_on_host(&self, host: &str) -> Vec<String> {
+        // An instance may have several SRV records, e.g. a withdrawn one waiting out
+        // its last second in front of its replacement: any of them counts. (The caller
+        // resolves the instances again and sees which record is in use.)
         self.srv
             .iter()
             .filter_map(|(instance, srv_list)| {
-                if let Some(item) = srv_list.first() {
-                    if let Some(dns_srv) = item.record.any().downcast_ref::<DnsSrv>() {
+                let on_host = srv_list.iter().any(|item| {
+                    item.record
+                        .any()
+                        .downcast_ref::<DnsSrv>()
                         // DNS names are case insensitive.
-                        if dns_srv.host().eq_ignore_ascii_case(host) {
-                            return Some(instance.clone());
-                        }
-                    }
-                }
-                None
+                        .is_some_and(|dns_srv| dns_srv.host().eq_ignore_ascii_case(host))
+                });
+                on_host.then(|| instance.clone())
             })
             .collect()
     }
